@@ -97,14 +97,37 @@ def c17b(ctx, tu):
                 ok = bool(dt)
                 why = "the agent is not destroyed at scope exit"
         ctx.ob("C17.b", A["dispatch"], ok, pattern=fn.pat, unit=tu.name, inst=fn.q, detail="" if ok else why)
-        # catch-all records the exception and rethrows
-        catches = [b for b in fn.rec["blocks"] if b.get("catch") == "..."]
-        ok = len(catches) == 1
-        if ok:
-            evs = [e for e in catches[0]["ev"] if e["e"] in ("call", "throw")]
-            ok = len(evs) >= 2 and qe(evs[0]) == AG + "::trace_exception" and evs[-1]["e"] == "throw" and evs[-1].get("rethrow")
+        # every handler of the dispatch function's try records the exception through the agent and rethrows it:
+        # either the catch-all hands it to trace_exception (which tells std exceptions from others, C17.c), or the
+        # dispatch function itself has a std::exception handler recording what() in front of a catch-all noting an
+        # unknown exception
+        catches = [b for b in fn.rec["blocks"] if b.get("catch")]
+        why = None
+        if not any(b["catch"] == "..." for b in catches):
+            why = "an exception leaving an accepted call must be caught (catch-all), recorded by the agent and rethrown"
+        rethrow_blocks = set(b["id"] for b in fn.rec["blocks"] if any(e["e"] == "throw" and e.get("rethrow") for e in b["ev"]))
+        for cb in catches:
+            region = cfg.reach(fn, cb["id"])
+            if fn.exit in cfg.reach(fn, cb["id"], avoid_blocks=rethrow_blocks) and why is None:
+                why = "the handler for %s does not rethrow on every path" % cb["catch"]
+            evs = [e for bid in region for e in fn.blocks[bid]["ev"]]
+            via_agent = any(e["e"] == "call" and qe(e) == AG + "::trace_exception" for e in evs)
+            streams = [e for e in evs if e["e"] == "call" and e.get("op") == "<<" and "trace_agent::os" in str(e)]
+            if cb["catch"] == "...":
+                if not via_agent and not streams and why is None:
+                    why = "the catch-all does not record the exception through the agent"
+            elif "std::exception" in cb["catch"]:
+                if not via_agent and not any(e["e"] == "call" and qe(e) == "std::exception::what" for e in evs) and why is None:
+                    why = "the std::exception handler does not record what()"
+            elif not via_agent and why is None:
+                why = "the handler for %s does not record the exception through the agent" % cb["catch"]
+        if why is None and not tu.find(AG + "::trace_exception"):
+            # no classifying helper: the dispatch function must do the classification itself
+            if not any("std::exception" in b["catch"] for b in catches):
+                why = "exceptions derived from std::exception must be recorded with what()"
+        ok = why is None
         ctx.ob("C17.b.exc", A["dispatch"], ok, pattern=fn.pat, unit=tu.name, inst=fn.q,
-               detail="" if ok else "an exception leaving an accepted call must be recorded by the agent and rethrown")
+               detail="" if ok else (why or "an exception leaving an accepted call must be recorded by the agent and rethrown"))
         # ... and everything that can throw a user exception while the agent is alive - the actions (side effects,
         # THROW) and the return handler (RETURN expression) - runs inside that try block
         tries = {t["id"]: t for t in fn.rec.get("tries", ())}
@@ -142,7 +165,7 @@ def c17b(ctx, tu):
 
 
 def c17c(ctx, tu):
-    for fn in tu.need(AG + "::trace_exception"):
+    for fn in tu.find(AG + "::trace_exception"):
         tries = [b for b in fn.rec["blocks"] if b.get("term", {}).get("kind") == "try"]
         ok = len(tries) == 1
         if ok:
